@@ -27,8 +27,9 @@ CLAUSES = ["TypeOK", "OnlySetOpsFail", "AreaMatchesMembership", "StoredClosedAnd
            "DeviceIsFilmMinusHoles"]
 POLY_OPS = ["setop", "rotate", "translate", "scale", "copy", "poke"]
 DEV_OPS = ["mkdev", "devcopy", "devtranslate", "devrotate", "devscale"]
-ALL_ACTIONS = ["DoNew", "DoSetOp", "DoRotate", "DoTranslate", "DoScale", "DoCopy", "DoPoke", "DoMkDev", "DoDevCopy",
-               "DoDevTranslate", "DoDevRotate", "DoDevScale"]
+ACTION_OF = {"setop": "ASetOp", "rotate": "ARotate", "translate": "ATranslate", "scale": "AScale", "copy": "ACopy",
+             "poke": "APoke", "mkdev": "AMkDev", "devcopy": "ADevCopy", "devtranslate": "ADevTranslate",
+             "devrotate": "ADevRotate", "devscale": "ADevScale"}
 
 # ------------------------------------------------------------------ codecs
 
@@ -94,12 +95,33 @@ def trace_cfg(H, invariants=CLAUSES, strict=True, mech=None):
             + "INVARIANT Accepted\n" + "".join(f"INVARIANT {i}\n" for i in invariants) + "CHECK_DEADLOCK FALSE\n")
 
 
-def parse_chains(tlc_result):
-    chains = []
+def parse_chains(tlc_result, max_ops=None):
+    """PolyAlg!Emit prints every chain prefix with the expected heap after its last step.  Returns the
+    maximal chains as lists of {o: operation, exp: expected heap after it}."""
+    exp = {}
+    leaves = []
     for line in tlc_result.printed():
-        if line.startswith('"['):
-            chains.append(json.loads(json.loads(line)))
-    return chains
+        if line.startswith('"{'):
+            rec = json.loads(json.loads(line))
+            key = json.dumps(rec["ops"], sort_keys=True)
+            exp[key] = rec
+    keys = set(exp)
+    inner = set()
+    for rec in exp.values():
+        if len(rec["ops"]) > 1:
+            inner.add(json.dumps(rec["ops"][:-1], sort_keys=True))
+    for key, rec in exp.items():
+        if key in inner:
+            continue
+        ops = rec["ops"]
+        chain = []
+        for n in range(1, len(ops) + 1):
+            pre = exp.get(json.dumps(ops[:n], sort_keys=True))
+            if pre is None:
+                raise core.MachineryFailure("export: missing prefix of a chain")
+            chain.append({"o": ops[n - 1], "exp": pre["exp"]})
+        leaves.append(chain)
+    return leaves
 
 
 def chain_key(chain):
@@ -258,7 +280,9 @@ def apply_op(tdgl, heap, o, v):
         return getattr(A, kind)(B, name="joined"), "method(Polygon, name=...)"
     if op == "rotate":
         P = objs[a - 1]
-        deg = [90 * o["q"], 90.0 * o["q"], 90 * o["q"] - 360, 90 * o["q"] + 360][v % 4]
+        # 90q + 360 is left out on purpose: shapely snaps cos/sin only below 2.5e-16, cos(450 deg) = 3.1e-16, so the
+        # rotated box is not exactly representable any more and is outside the exact cell model
+        deg = [90 * o["q"], 90.0 * o["q"], 90 * o["q"] - 360, float(90 * o["q"] - 360)][v % 4]
         org = tuple(o["org"]) if v % 2 else tuple(float(x) for x in o["org"])
         if tuple(o["org"]) == (0, 0) and v % 3 == 0:
             return P.rotate(deg, inplace=o["inplace"]), f"rotate({deg}) default origin"
